@@ -186,7 +186,7 @@ theorem dupFree_pairwise {α} (f : α → String) : ∀ l : List α, dupFree (l.
     and index accessor read back mesh `id`, whose mode encodes the topology -/
 def MeshFor (s : Scene) (w : W) (gm : GMesh) (id : Nat) (mat : Option Nat) : Prop :=
   ∃ m p idx, s.meshHeap[id]? = some m ∧ gm.prims = [p] ∧ p.material = mat ∧ p.indices = some idx
-    ∧ p.mode = (if m.topo = 1 then some 0 else none) ∧ MeshData w m p.attrs idx
+    ∧ p.mode = modeOfTopo m.topo ∧ MeshData w m p.attrs idx
     ∧ m.written ≠ [] ∧ KeysOK m      -- both follow from acceptance (fd26630: skipped / rejected otherwise)
 
 theorem meshFor_mono {s : Scene} {w w' : W} {gm : GMesh} {id : Nat} {mat : Option Nat} (h : MeshFor s w gm id mat)
